@@ -101,7 +101,9 @@ class CoefficientCollector(Mapper):
         return {1: expr}
 
     def map_algebraic_leaf(self, expr):
-        if self.target_names is None or expr.name in self.target_names:
+        from pymbolic.primitives import Variable
+        if self.target_names is None or (
+                isinstance(expr, Variable) and expr.name in self.target_names):
             return {expr: 1}
         else:
             return {1: expr}
